@@ -17,8 +17,8 @@ RULE = (
     "the same bytes twice. Then 1..12 (quick) / 1..30 (thorough) mutations are applied to A, drawn from the attribute catalogue of C06 (every "
     "controller, option, binding, payload element mutated in place: curve/waveform elements, envelope points appended, mapping fields, samples, "
     "note map, note cells, project fields) plus link operations, optionally followed by save/load of A; for clones also the reverse direction "
-    "(mutate B, observe A). Oracle: snapshot(B) and B's saved bytes are identical before and after every step; an object of A's type "
-    "constructed after the mutations equals a pristine snapshot taken before. non-trivial = the mutation list contains an in-place element "
+    "(mutate B, observe A). Oracle: snapshot(B) and B's saved bytes are identical before and after every step; an object of A's type (and an "
+    "unrelated Amplifier) constructed after the mutations equals, in state and saved bytes, one constructed at process start before any case was generated. non-trivial = the mutation list contains an in-place element "
     "mutation of a list-valued payload"
 )
 ASSUMPTIONS = [
@@ -127,20 +127,48 @@ def observe(obj):
     return snapshot.snap(obj), obj.read()
 
 
+PRISTINE = {}
+
+
+def fresh_observation(cls):
+    from rv.api import Project, Synth
+
+    # bytes first: taking a snapshot touches lazily created per-object entries
+    if cls is Project:
+        o = Project()
+        data = o.read()
+        return snapshot.snap_project(o), data
+    o = cls()
+    data = Synth(o).read()
+    return snapshot.snap_module(o, in_project=False), data
+
+
+def record_pristine():
+    """State and saved bytes of a freshly constructed object of every type, taken at the very start
+    of the shard - before any case has been generated (generation itself builds and mutates objects)."""
+    from rv.api import Project
+
+    if PRISTINE:
+        return
+    PRISTINE[Project] = fresh_observation(Project)
+    for t in build.attachable_types():
+        cls = build.cls_of(t)
+        PRISTINE[cls] = fresh_observation(cls)
+
+
 def run_case(ctx, case):
     a_recipe = case["a"]
     labels = set()
-    # pristine snapshot of A's (module) type before anything is mutated
+    record_pristine()
     if a_recipe["kind"] == "synth":
         cls = build.cls_of(a_recipe["spec"]["type"])
-        pristine = snapshot.snap_module(cls(), in_project=False)
         labels.add("type_" + a_recipe["spec"]["type"])
     else:
         from rv.api import Project
 
         cls = Project
-        pristine = snapshot.snap_project(Project())
         labels.add("project_pair")
+    pristine = PRISTINE[cls][0]
     A = make_obj(a_recipe)
     how = case["how"]
     if how == "same_recipe":
@@ -154,9 +182,15 @@ def run_case(ctx, case):
         labels.add("pair_clone")
     else:
         data = A.read()
+        constructed = snapshot.snap(A)
         A = load(data)
         B = load(data)
         labels.add("pair_load_twice")
+        # what was loaded is what was built - unless something process-wide was changed by earlier
+        # objects (generation of this very case already built, loaded and mutated objects)
+        d = snapshot.diff(constructed, snapshot.snap(B))
+        if d:
+            raise PropertyViolation("C17.leak.loaded_object_polluted", "an object loaded from freshly written bytes differs from the one that was written: %r" % (d[:3],), key="C17.leak:loaded_object_polluted")
     b0 = observe(B)
     for i, e in enumerate(case["mutations"]):
         apply_mut(A, e)
@@ -189,16 +223,26 @@ def run_case(ctx, case):
             if a1 != a0:
                 d = snapshot.diff(a0[0], a1[0])
                 raise PropertyViolation("C17.leak.reverse", "mutation %r of the clone changed the original: %r" % (e[:5], d[:3]), key="C17.leak:reverse")
-    # class-level defaults not polluted
-    fresh = cls()
-    fs = snapshot.snap_module(fresh, in_project=False) if a_recipe["kind"] == "synth" else snapshot.snap_project(fresh)
+    # nothing process-wide was polluted: an object constructed now looks and saves like one constructed
+    # before anything else happened in this process
+    fs, fbytes = fresh_observation(cls)
     if fs != pristine:
         d = snapshot.diff(pristine, fs)
         raise PropertyViolation("C17.defaults_polluted", "a %s constructed after the mutations differs from a pristine one: %r" % (cls.__name__, d[:3]), key="C17.defaults_polluted:" + cls.__name__)
+    if fbytes != PRISTINE[cls][1]:
+        raise PropertyViolation("C17.defaults_polluted.bytes", "a freshly constructed %s now saves to different bytes than at process start" % cls.__name__, key="C17.defaults_polluted.bytes")
+    # the same for a second, unrelated type (shared module-level state is not per class)
+    other = build.cls_of("Amplifier")
+    if fresh_observation(other) != PRISTINE[other]:
+        raise PropertyViolation("C17.defaults_polluted.other_type", "a freshly constructed Amplifier differs from / saves differently than at process start", key="C17.defaults_polluted.other_type")
     return labels
 
 
 def run_shard(ctx, desc):
+    import rv.api  # noqa: F401
+
+    record_pristine()
+
     def body(case):
         ctx.case()
         labels = run_case(ctx, case)
